@@ -347,7 +347,7 @@ def main(ck):
         # until fix c9660c6; they are also run at depth 20, where an exponential parser does not answer)
         SHALLOW = (b"[$a, ", b"[$a, $b, ", b"f($a, ", b"[$a, $b, $c => ")
         # bytes: the deepest inputs are as deep as a source of this size allows (at most 10^6 levels)
-        BIG = 4000000 if quick else 8000000
+        BIG = 3000000 if quick else 8000000
         # nested heredocs inside interpolation are re-lexed once per level (known finding time:heredoc-nest, measured by
         # the time-ratio test below): deeper than this they only measure that quadratic cost
         MAXN = {b"<<<A\n{$a[": 2000}
